@@ -529,9 +529,10 @@ class Stream(APIRegisterMixin):
         downstream: Stream
             The downstream stream to disconnect from
         """
-        self._remove_downstream(downstream)
-
+        # the downstream may refuse (see combine_latest): ask it first so that a
+        # refused edit leaves both ends as they were
         downstream._remove_upstream(self)
+        self._remove_downstream(downstream)
 
     @property
     def upstream(self):
@@ -549,8 +550,8 @@ class Stream(APIRegisterMixin):
         if streams is None:
             streams = self.upstreams
         for upstream in list(streams):
-            upstream._remove_downstream(self)
             self._remove_upstream(upstream)
+            upstream._remove_downstream(self)
 
     def scatter(self, **kwargs):
         from .dask import scatter
@@ -1707,7 +1708,8 @@ class combine_latest(Stream):
 
     def _remove_upstream(self, upstream):
         # Override method to handle removal of last and missing for stream
-        if self.emit_on == upstream:
+        if self._initial_emit_on is not None and \
+                all(e is upstream for e in self.emit_on):
             raise RuntimeError("Can't remove the ``emit_on`` stream since that"
                                "would cause no data to be emitted. "
                                "Consider adding an ``emit_on`` first by "
@@ -1715,12 +1717,17 @@ class combine_latest(Stream):
                                "a new ``emit_on`` or running "
                                "``node.emit_on=tuple(node.upstreams)`` to "
                                "emit on all incoming data")
-        self.last.pop(self.upstreams.index(upstream))
-        self.metadata.pop(self.upstreams.index(upstream))
-        self.missing.remove(upstream)
+        idx = self.upstreams.index(upstream)
+        self.last.pop(idx)
+        held = self.metadata.pop(idx)
+        if held:
+            self._release_refs(held)
+        self.missing.discard(upstream)
         super(combine_latest, self)._remove_upstream(upstream)
         if self._initial_emit_on is None:
             self.emit_on = self.upstreams
+        else:
+            self.emit_on = tuple(e for e in self.emit_on if e is not upstream)
 
     def update(self, x, who=None, metadata=None):
         self._retain_refs(metadata)
